@@ -237,6 +237,8 @@ def account(prop, tier, want_tags, expl, level, extra_note=''):
         'genc: user callbacks honour const uscxml_ctx* (write nothing reachable from ctx); executable-content callbacks return USCXML_ERR_OK or an error code 3..8 (IDLE/DONE are the step function\'s own answers); is_true/is_matched return arbitrary ints',
         'genc: derived preconditions of the emitted code - ctx->is_matched, ctx->raise_done_event and ctx->invoke are non-NULL (called unguarded); a context is pristine (flags==0) or has USCXML_CTX_INITIALIZED',
         'genc: machines nested in <invoke><content><scxml> are validated like documents of their own (name doc#k); machines pulled in through invoke src= or nested deeper are not (listed)',
+        'genc: a context between steps has USCXML_CTX_TRANSITION_FOUND clear (transient flag; proved to be re-established by every step)',
+        'genc (C04.select/.step/.content): is_matched answers are a function of the transition and is_true answers a function of the condition text within one step (ghost arrays chosen up front, any int); a missing is_true callback counts as "enabled" as in the emitted is_enabled wrappers; pre-emption where the Recommendation-level spec leaves it open (nested sources with a parallel state between) is read from the emitted conflicts column; spec functions spec_rec.h / spec_step.h / wf.h and the reading of the document (docfacts.py) are trusted',
     ]
     if extra_note:
         part.assumptions.append(extra_note)
